@@ -3,10 +3,62 @@ HARNESS = "harness/c09.cpp"
 DRIVER_MODE = "c09"
 LEAN_MODULES = ["AdaptaVerif.Props.C09"]
 LEVEL = "proof"
-WIP = True
+LEVEL_TEXT = ("Lean 4 theorems about a hand-written model of the scan-line generators of libvpsc/rectangle.cpp "
+              "(firstAbove/firstBelow and neighbour-set bookkeeping), for ALL rectangle arrays, ALL border values, "
+              "ALL tie-break ranks (the heap-address fallback of CmpNodePos) and ALL event orders compare_events may "
+              "produce: gen_key_increases / gen_acyclic (every generated constraint goes up in the (centre, rank) key, "
+              "so the constraint graphs of generateYConstraints and of generateXConstraints in both modes are DAGs); "
+              "geny_separates / genx_separates (every pair whose sweep extents meet - touching included - is kept at "
+              "least half the two lengths apart by every placement satisfying the generated constraints); "
+              "geny_no_overlap / genx_no_overlap (after moving the centres to any such placement no two bordered "
+              "rectangles overlap with positive area); pointer_bookkeeping_exact (the pointer bookkeeping equals "
+              "recomputing scan-line neighbours); separation_no_overlap; moveCentre_keeps_size. The model is tied to "
+              "the C++ by exact comparison of the generated constraint multisets (left id, right id, gap) on "
+              "tie-free inputs. Every output of the real code (constraints on tie inputs, rectangles after "
+              "removeoverlaps) is judged by Lean checkers with proved soundness: noOverlap_sound_complete, "
+              "sizesKept_sound_complete, satisfiedBy_sound_complete, acyclic_witness_sound, separation_certificate_sound.")
+LEVEL_NOTE = ("The theorems are about the model; the C++ generators are tied to it by sampled exact correspondence "
+              "(strict only when all scan-line keys are distinct and no two order-relevant events share a position; "
+              "on inputs with ties the heap-address tie-break and qsort's treatment of the inconsistent comparator "
+              "are not observable without a hook, so only the spec-determined facts - acyclic, gaps exact, every "
+              "meeting pair chained - are checked, by proven-sound checkers). removeoverlaps as a whole (three passes "
+              "through the VPSC solver, border bookkeeping with EXTRA_GAP) is NOT modelled: its real output is "
+              "validated per run (no overlap > 1e-6 in both axes between the bordered rectangles, sizes, borders "
+              "restored, fixed rectangles, finite). The composition 'solver output satisfies the constraints' is "
+              "C01/C02's business; geny_no_overlap / genx_no_overlap give the per-pass guarantee under that hypothesis. "
+              "Sizes: moveMinX/moveMinY recompute max = x + w - border in floating point, so widths/heights drift by "
+              "ulps (the code itself asserts only 1e-9); the check therefore enforces |delta| <= 1e-9 and reports the "
+              "number of bit-identical cases as a statistic. Completeness of sepCert (rejected => some placement "
+              "overlaps) is not proved; a rejection is reported as SPECFAIL with the unchained pair named. "
+              "Known finding C09-fixed-is-only-weight-1e4: 'fixed' rectangles are only weighted 10000:1 and do move "
+              "(tags fixedsq / multifixed / bigfixed).")
+TECHNIQUE = ("Lean 4 theorems (order-theoretic invariant of the scan line, backward chain induction over the event "
+             "list, certificate checkers for DAG-ness and separation) + correspondence harness on libvpsc")
+RULE = ("10 generator classes cycled by case index: identical rectangles, thin (2^-10..2^-4) rectangles, grid-aligned "
+        "equal sizes (many key/event ties), nested, chain overlaps, random k/4 coordinates, random tie-free, "
+        "fixed-squeeze (two fixed + one movable, n=3), multifixed (>=2 pairwise clear fixed), bigfixed (one fixed, "
+        "n>12); n<=12 quick (bigfixed 13..40), <=400 thorough; generate* called under random borders "
+        "{0,1/16,1/2,1,2}; removeoverlaps with/without user borders, thirdPass on/off, fixed none/single. "
+        "A case is non-trivial if the input had at least one overlapping pair (removeoverlaps had work to do).")
+TRUSTED_BASE = ["Lean 4.33 kernel", "axioms: propext, Classical.choice, Quot.sound",
+                "Lean compiler for the driver (model and checkers run compiled)",
+                "harness/c09.cpp + hex-float import",
+                "untrusted certificate producers topoPos / reachMasks (their output is checked by sepCert/acyclicBy)",
+                "IEEE: +,-,/2 exact on the small dyadic inputs (gaps and centres compared exactly)"]
+ASSUMPTIONS = ["rectangles are constructible: minX<maxX, minY<maxY (the constructor asserts it), so 'zero-area' means thin",
+               "heap addresses of scan-line nodes are pairwise distinct (rank injective)",
+               "qsort with compare_events returns a permutation with non-decreasing positions and Open before Close "
+               "at equal positions (ValidOrder); checked indirectly by the tie-free correspondence and the chain checker",
+               "fixed-set claim (<1% of mean size) is only enforced where it can hold: at most one fixed rectangle and n<=12"]
+EXPLANATION = ("DIVERGE: on a tie-free input the C++ constraint multiset differs from the model, or a gap is not "
+               "exactly half the two lengths. SPECFAIL: cyclic constraint graph; a pair whose sweep extents meet "
+               "without a separating chain / gap too small (cy, cx0); after removeoverlaps: escaped exception, "
+               "non-finite coordinate, borders not restored, size changed > 1e-9, overlap > 1e-6 in both axes, fixed "
+               "rectangle moved >= 1% of the mean size.")
 
 def plan(tier, seed, searching):
-    return [dict(hargs=["--seed", str(seed), "--tier", tier, "--scale", "8" if searching else "1"])]
+    return [dict(hargs=["--seed", str(seed), "--tier", tier, "--scale", "8" if searching else "1"],
+                 timeout=3000)]
 
 def only_args(hargs, k):
     return hargs + ["--only", str(k)]
